@@ -5,7 +5,7 @@ import os
 from framework import REPO, ROOT, LEAN
 
 TIE = ["Nsq.Tie.LookupSync"]
-PROPS = ["Nsq.Props.C16"]
+PROPS = ["Nsq.Props.C16", "Nsq.Props.C16Ticks"]
 KEY_F3 = "negative-length-panic"
 KEY_STALE = "deleted-object-still-registered"
 
@@ -68,8 +68,22 @@ def oracle_lines(ctx, out, label):
             ctx.violation(key, l[len("ORACLE-FAIL "):], "%s\n%s\n(run: %s, seed %s)\n" % (l, script, label, ctx.seed))
         elif l.startswith("CONVERGENCE_SAMPLES"):
             record_convergence(ctx, l.split()[1:], label)
+        elif l.startswith("TICK_SAMPLES"):
+            record_ticks(ctx, l.split()[1:])
         elif l.startswith(("DIST", "ORACLE-OK", "CONVERGENCE", "HOSTILE")):
             ctx.corr.setdefault(label, []).append(l)
+
+
+def record_ticks(ctx, samples):
+    """`kind:n` samples: heartbeat ticks of the real lookupLoop from the end of a lookupd's last fault to its new session
+    (theorem C16Ticks.two_ticks_connect: n <= 2; two_ticks_needed: 2 occurs, after a restart nsqd had not noticed)."""
+    d = ctx.corr.setdefault("reconnect_ticks", {"theorem": "C16Ticks.two_ticks_connect (k = 2)", "samples": 0,
+                                                "histogram": {}, "per_fault_kind_max": {}})
+    for smp in samples:
+        kind, n = smp.rsplit(":", 1)
+        d["samples"] += 1
+        d["histogram"][n] = d["histogram"].get(n, 0) + 1
+        d["per_fault_kind_max"][kind] = max(d["per_fault_kind_max"].get(kind, 0), int(n))
 
 
 def record_convergence(ctx, samples, label, heartbeat_ms=100):
